@@ -44,6 +44,11 @@ pub trait SimHook {
     fn fail_fd_alloc(&self, pid: Pid, site: &'static str) -> bool;
     /// Records an event. Must not access the system state.
     fn event(&self, pid: Pid, kind: &'static str, a: i64, b: i64);
+    /// Whether this read from or write to a regular file should fail, and
+    /// with which error (a disk error, a full disk).
+    fn fail_io(&self, _pid: Pid, _fd: Fd, _is_write: bool) -> Option<Errno> {
+        None
+    }
 }
 
 thread_local! {
@@ -99,6 +104,11 @@ pub fn event(pid: Pid, kind: &'static str, a: i64, b: i64) {
 /// Returns true if the file-descriptor allocation should fail.
 pub fn fail_fd_alloc(pid: Pid, site: &'static str) -> bool {
     hook().is_some_and(|h| h.fail_fd_alloc(pid, site))
+}
+
+/// Returns the error with which the read/write of a regular file should fail.
+pub fn fail_io(pid: Pid, fd: Fd, is_write: bool) -> Option<Errno> {
+    hook().and_then(|h| h.fail_io(pid, fd, is_write))
 }
 
 /// Returns the number of bytes the read/write may transfer.
